@@ -13,7 +13,8 @@ from vf.oracles.earley import Grammar
 
 PROPERTY = 'C05'
 RULE = ('cases = (dialect, text) built from corpus statements and random grammar derivations by token edits '
-        '(delete/dup/replace/insert/swap/truncate), garbage prefix/suffix/infix and statement concatenation; '
+        '(delete/dup/replace/insert/swap/truncate), garbage prefix/suffix/infix and statement concatenation + bounded-exhaustive: every production of each live grammar '
+        'with every alternative of each of its nonterminals; '
         'non-trivial = >=3 tokens, text not verbatim in the corpus, lexes completely, and either accepted (Earley '
         'recogniser consulted) or a non-sentence by the recogniser; distinct by (dialect, token-type sequence)')
 ASSUMPTIONS = ['Parser._grammar.Productions is the grammar (read at run time)',
